@@ -1,2 +1,274 @@
-"""Engine for C20 (queue machine M2)."""
-PROPS = []
+"""Engine for C20: the queue machine M2 (lean/Taskpool/Model/Queue.lean, driver `qdriver`) against the real
+`asyncio_taskpool.queue_context.Queue`.
+
+Per run: corpus first, then histories generated from VERIF_SEED; each is executed on the real queue one event-loop
+handle at a time (harness/queue_world.py) and on the compiled Lean model; the observation streams are diffed line by
+line and the C20 monitors are evaluated on the real run.  A monitor failure is a VIOLATION with a minimised history;
+a broken proof / correspondence without a failing input is a VIOLATION `no-failing-input-found`."""
+import collections
+import glob
+import hashlib
+import json
+import multiprocessing as mp
+import os
+import random
+import time
+
+from . import model, shrink
+from . import queue_world as QW
+from .leanproj import proof_coverage
+
+ROOT = os.path.dirname(os.path.dirname(os.path.abspath(__file__)))
+PROPS = ["C20"]
+DRIVER = "qdriver"
+BUDGET = {"quick": 12000, "thorough": 240000}          # generated histories
+MAXLEN = {"quick": 30, "thorough": 45}
+SEARCH = {"quick": 20000, "thorough": 60000}            # extra monitor-only histories when proof/correspondence broke
+
+
+def corpus(prop):
+    out = []
+    for path in sorted(glob.glob(os.path.join(ROOT, "corpus", prop, "*.json"))):
+        with open(path) as fh:
+            d = json.load(fh)
+        out.append((os.path.relpath(path, ROOT), d.get("ops") or d.get("body") or []))
+    return out
+
+
+def history(seed, i, maxlen):
+    rng = random.Random(seed * 1000003 + i)
+    profile = QW.PROFILES[i % len(QW.PROFILES)]
+    return profile, QW.gen_ops(rng, profile, maxlen)
+
+
+def model_obs(batches):
+    """one driver process for many histories; returns the observation lines per history"""
+    lines = []
+    for b in batches:
+        lines.append("reset")
+        lines.extend(b)
+    res = model.run_driver(DRIVER, lines)
+    out, pos = [], 0
+    for b in batches:
+        out.append(res[pos + 1:pos + 1 + len(b)])
+        pos += 1 + len(b)
+    return out
+
+
+def examine(r, mobs):
+    fails = []
+    if mobs is not None:
+        j, fields = QW.first_mismatch(r["obs"], mobs)
+        if j is not None:
+            fails.append({"kind": "diff", "step": j, "detail": f"fields {fields}", "op": r["lines"][min(j, len(r['lines']) - 1)],
+                          "impl": r["obs"][j] if j < len(r["obs"]) else None, "model": mobs[j] if j < len(mobs) else None})
+    for (name, step, detail) in r["fails"]:
+        fails.append({"kind": "monitor", "monitor": name, "step": step, "detail": detail})
+    return fails
+
+
+def work(job):
+    seed, start, count, maxlen, bodies, use_model = job
+    runs = []
+    for (name, ops) in bodies:
+        runs.append((name, "corpus", ops))
+    for i in range(start, start + count):
+        profile, ops = history(seed, i, maxlen)
+        runs.append((f"gen:{seed}:{i}", profile, ops))
+    results = [QW.execute(ops) for (_, _, ops) in runs]
+    mobs, model_error = [None] * len(runs), None
+    if use_model:
+        try:
+            mobs = model_obs([r["lines"] for r in results])
+        except Exception as e:                      # driver missing / crashed: the correspondence cannot be checked
+            model_error = repr(e)[:300]
+    s = {"histories": 0, "lines": 0, "compared": 0, "stats": collections.Counter(), "failures": [], "digests": set(),
+         "nontrivial": set(), "samples": [], "handles": 0, "diverging": 0, "model_error": model_error,
+         "profiles": collections.Counter()}
+    for (name, profile, ops), r, mo in zip(runs, results, mobs):
+        fails = examine(r, mo)
+        s["histories"] += 1
+        s["lines"] += len(r["lines"])
+        if mo is not None:
+            s["compared"] += len(r["lines"])
+        s["profiles"][profile] += 1
+        for ln in r["lines"]:
+            t = ln.split()
+            s["stats"]["op:" + t[0]] += 1
+            if t[0] == "run":
+                s["handles"] += 1
+                if len(t) > 1 and t[1] != "0":
+                    s["stats"]["nonfifo-run"] += 1
+        s["stats"].update(r["kinds"])
+        dg = hashlib.sha1("\n".join(ops).encode()).hexdigest()[:16]
+        s["digests"].add(dg)
+        if r["taken"] > 0:
+            s["nontrivial"].add(dg)
+            if len(s["samples"]) < 1:
+                s["samples"].append({"source": name, "profile": profile, "ops": ops, "items_taken_by_blocks": r["taken"]})
+        if any(f["kind"] == "diff" for f in fails):
+            s["diverging"] += 1
+        for f in fails:
+            s["failures"].append(dict(f, source=name, ops=ops))
+    return s
+
+
+# ------------------------------------------------------------------------------------------------
+def run_once(ops, use_model=True):
+    r = QW.execute(ops)
+    mobs = None
+    if use_model:
+        try:
+            mobs = model_obs([r["lines"]])[0]
+        except Exception:
+            mobs = None
+    return r, mobs, examine(r, mobs)
+
+
+def shrink_failure(f, use_model=True):
+    """smallest op list on which the same kind of failure (same monitor) persists"""
+    def still(body):
+        try:
+            _, _, fails = run_once(body, use_model=(use_model and f["kind"] == "diff"))
+        except Exception:
+            return False
+        return any(g["kind"] == f["kind"] and (f["kind"] != "monitor" or g["monitor"] == f["monitor"]) for g in fails)
+    try:
+        return shrink.shrink(list(f["ops"]), still, budget=300)
+    except Exception:
+        return list(f["ops"])
+
+
+def sweep(seed, total, maxlen, jobs, bodies, use_model, offset=0):
+    chunks = max(jobs * 3, 1)
+    per = max(1, -(-total // chunks))
+    jobl = [(seed, offset + k * per, per, maxlen, bodies if k == 0 else [], use_model) for k in range(chunks)]
+    agg = {"histories": 0, "lines": 0, "compared": 0, "stats": collections.Counter(), "failures": [], "digests": set(),
+           "nontrivial": set(), "samples": [], "handles": 0, "diverging": 0, "model_errors": [],
+           "profiles": collections.Counter()}
+    with mp.Pool(max(1, min(jobs, chunks))) as pool:
+        for s in pool.imap_unordered(work, jobl):
+            for k in ("histories", "lines", "compared", "handles", "diverging"):
+                agg[k] += s[k]
+            agg["stats"].update(s["stats"])
+            agg["profiles"].update(s["profiles"])
+            agg["failures"].extend(s["failures"])
+            agg["digests"] |= s["digests"]
+            agg["nontrivial"] |= s["nontrivial"]
+            if len(agg["samples"]) < 3:
+                agg["samples"].extend(s["samples"])
+            if s["model_error"]:
+                agg["model_errors"].append(s["model_error"])
+    return agg
+
+
+def report_monitor_failures(prop, mons, out, reported):
+    for f in sorted(mons, key=lambda f: len(f["ops"])):
+        if f["monitor"] in reported:
+            continue
+        reported.add(f["monitor"])
+        body = shrink_failure(f)
+        r, mobs, fails = run_once(body)
+        hit = [g for g in fails if g["kind"] == "monitor" and g["monitor"] == f["monitor"]]
+        h = hit[0] if hit else f
+        dj = [g for g in fails if g["kind"] == "diff"]
+        out.violation({"kind": "monitor", "monitor": {"name": f["monitor"], "detail": h["detail"], "step": h["step"]},
+                       "ops": body, "trace": list(zip(r["lines"], r["obs"]))[:200], "source": f["source"],
+                       "model_agrees": (mobs is not None and not dj), "broken_obligation": None, "known_finding": None})
+
+
+def run(prop, tier, seed, jobs, proof, out):
+    bodies = corpus(prop)
+    agg = sweep(seed, BUDGET[tier], MAXLEN[tier], jobs, bodies, True)
+    diffs = [f for f in agg["failures"] if f["kind"] == "diff"]
+    mons = [f for f in agg["failures"] if f["kind"] == "monitor"]
+    reported = set()
+    report_monitor_failures(prop, mons, out, reported)
+    searched = agg["histories"]
+    broken = (not proof["ok"]) or bool(diffs) or bool(agg["model_errors"])
+    if broken and not reported:
+        # a proof obligation or the correspondence no longer checks: is there a failing input?  Escalated budget,
+        # fresh histories (longer, other index range), monitors only.
+        extra = sweep(seed, SEARCH[tier], MAXLEN[tier] + 15, jobs, [(f"diverging:{d['source']}", d["ops"]) for d in diffs[:50]],
+                      False, offset=10**7)
+        searched += extra["histories"]
+        report_monitor_failures(prop, [f for f in extra["failures"] if f["kind"] == "monitor"], out, reported)
+    if broken and not reported:
+        what = []
+        if not proof["ok"]:
+            what.append({"proof": proof["problems"], "theorems": proof["theorems"]})
+        if agg["model_errors"]:
+            what.append({"model_driver": agg["model_errors"][:3]})
+        if diffs:
+            what.append("lock-step correspondence of M2 (Lean model qdriver vs asyncio_taskpool.queue_context.Queue)")
+        payload = {"kind": "proof" if not proof["ok"] else ("diff" if diffs else "model-driver"), "broken_obligation": what,
+                   "searched": {"histories": searched, "monitors_of": prop}, "known_finding": None}
+        if diffs:
+            d = sorted(diffs, key=lambda f: len(f["ops"]))[0]
+            body = shrink_failure(d)
+            r, mobs, fails = run_once(body)
+            dd = [g for g in fails if g["kind"] == "diff"]
+            payload.update({"ops": body, "first_divergence": (dd[0] if dd else {k: d[k] for k in d if k != "ops"}),
+                            "source": d["source"], "trace": list(zip(r["lines"], r["obs"]))[:200],
+                            "diverging_histories": agg["diverging"]})
+        out.violation(payload, nofail=True)
+
+    cov = proof_coverage(proof)
+    cov["trusted_base"] = [t for t in cov["trusted_base"] if "Semaphore" not in t] + [
+        "CPython 3.12 asyncio (Task, Future, Queue, Event) is modelled, not verified"]
+    cov.update({
+        "evaluations": agg["histories"],
+        "distinct_nontrivial": len(agg["nontrivial"]),
+        "rule": "op histories generated from random.Random(VERIF_SEED*1000003+i) in three profiles (fifo: handles run in loop "
+                "order; mixed/wild: `run k` picks the k-th ready handle, wild also names non-existent consumers), plus the "
+                "corpus; each executed on the real Queue one event-loop handle at a time (then wound down: all handles run, "
+                "all open gates resolved) and on the Lean model; distinct = distinct generated op sequences; non-trivial = "
+                "at least one item was handed to an `async with` block",
+        "samples": agg["samples"][:3],
+        "traces_validated_against_impl": agg["histories"] - agg["diverging"] if not agg["model_errors"] else 0,
+        "observation_lines_compared": agg["compared"],
+        "handles_run": agg["handles"],
+        "diverging_histories": agg["diverging"],
+        "monitor_findings": len(mons),
+        "monitors": ["task_done-raised-ValueError", "block-exit-marks-not-exactly-once", "mark-without-block-exit",
+                     "marks-ne-block-exits", "cancelled-waiter-disturbed-queue", "join-blocked-with-nothing-outstanding",
+                     "join-returned-early", "join-not-released", "task_done-outside-consumer"],
+        "op_histogram": {k: v for k, v in sorted(agg["stats"].items()) if k.startswith("op:") or k == "nonfifo-run"},
+        "exit_kind_histogram": {k[5:]: v for k, v in sorted(agg["stats"].items()) if k.startswith("exit:")},
+        "profile_histogram": dict(agg["profiles"]),
+        "corpus_histories": len(bodies),
+        "observed_fields": list(QW.FIELDS),
+        "exhaustive": False,
+    })
+    ev = {"property_id": prop, "tier": tier, "seed": seed, "level": "proof", "coverage": cov,
+          "assumptions": [
+              "theorems are about the hand-written Lean model lean/Taskpool/Model/Queue.lean (every history of put / spawn / "
+              "join / cancel / gate ok|exc / run k, any handle order); the tie to /repo is this run's lock-step correspondence",
+              "unbounded queue (maxsize 0), put_nowait producers, consumer body = one suspension point (a harness gate), "
+              "join tasks are never cancelled",
+              "CPython 3.12.1 asyncio semantics as modelled (Task.cancel / must_cancel, Queue.get getter futures, "
+              "_wakeup_next, Event.set/wait)"]}
+    return ev
+
+
+def replay(prop, path, out, args):
+    with open(path) as fh:
+        d = json.load(fh)
+    body = d.get("ops") or d.get("body")
+    if not body:
+        print("replay file has no ops (proof/audit failure): rebuild with `cd lean && lake build`")
+        return 1
+    r, mobs, fails = run_once(body)
+    for k, (ln, a) in enumerate(zip(r["lines"], r["obs"])):
+        print(ln)
+        print("   impl :", a)
+        if mobs is not None and k < len(mobs) and QW.canon(a) != QW.canon(mobs[k]):
+            print("   model:", mobs[k])
+    if mobs is None:
+        print("model driver unavailable: correspondence not checked")
+    for f in fails:
+        print(f)
+    if fails:
+        print(f"VIOLATION property={prop} replay={path}")
+        return 1
+    return 0
